@@ -7,7 +7,8 @@ Which theorem is what:
   `noncopyable_used_at_most_once`, `reuse_rejected`, `undroppable_leak_rejected`, `no_leak_accepted`,
   `leaky_iff_never_used_partial`, `frozen_inherited_at_any_depth` (+ its two corollaries).
 * **table `decide`** over `Gen/C22FrozenList.lean` (regenerated each run; names from the AST, flags from calling the
-  real class): `frozen_rejects_all`.
+  real class): `frozen_rejects_all`; over the `frozen=` rule of `trace_function` evaluated per argument mode:
+  `only_borrowed_is_mutable` (`mutation_of_non_borrowed_rejected` combines it with the structural theorem).
 * **definitional** (the operation carries its verdict; kept because the tie compares exactly this verdict with the real
   tracer, but they prove nothing beyond the model's definition): `frozen_mutation_rejected`, `copyable_reuse_accepted`.
 
@@ -138,6 +139,26 @@ theorem nested_mutation_of_borrowed_accepted (s : Shape) (path : List Step) (b :
   have := frozen_inherited_at_any_depth false s path b h
   subst this
   simp [mutateAt, h]
+
+/-- **C22 (which arguments are frozen)** — table `decide` over the rule regenerated from `trace_function`'s source:
+    an argument is handed to the traced body mutable iff it is borrowed; owned arguments *and arguments passed by
+    value* (copyable types: neither flag) are frozen. -/
+theorem only_borrowed_is_mutable :
+    frozenRule .owned = some true ∧ frozenRule .byValue = some true ∧ frozenRule .borrowed = some false := by
+  decide
+
+/-- …so, with `frozen_inherited_at_any_depth`: every in-place mutation, at any depth, of anything derived from an
+    argument that is not borrowed is rejected (structural; the rule enters through `only_borrowed_is_mutable`). -/
+theorem mutation_of_non_borrowed_rejected (m : ArgMode) (hm : m ≠ .borrowed) (s : Shape) (path : List Step) (b : Bool)
+    (h : ((unpack ((frozenRule m).getD false) s).at path).bind Val.containerFlag = some b) :
+    mutateAt (unpack ((frozenRule m).getD false) s) path = .error .frozen := by
+  have hr : (frozenRule m).getD false = true := by
+    cases m with
+    | owned => simp [only_borrowed_is_mutable.1]
+    | byValue => simp [only_borrowed_is_mutable.2.1]
+    | borrowed => exact absurd rfl hm
+  rw [hr] at h ⊢
+  exact nested_mutation_of_owned_rejected s path b h
 
 /-- **C22 (frozenlist)**: `frozenlist` derives from `list` and overrides every mutating method of
     CPython 3.12's `list`, and each override, called on a real instance, raises `GuppyComptimeError` and leaves the list unchanged (`decide` over the table
